@@ -287,5 +287,5 @@ def parts(tier):
     return [
         Part("hostile-shapes", check_case, cases=hostile_cases, exhaustive=True),
         Part("benign-calls", check_case, cases=benign_cases, exhaustive=True),
-        Part("nested-contexts", check_case, strategy=nested_case(), examples=(300, 5000)),
+        Part("nested-contexts", check_case, strategy=nested_case(), examples=(300, 30000)),
     ]
